@@ -12,7 +12,7 @@ RULE = ("Boundary crossings: every factor / measure / density / linear-condition
         "(reverse mode vs central differences along drawn directions); non-trivial = >= 2 operations and a non-zero finite-difference response.")
 BOUNDS = {"D,Dx,Dy": "1..3", "R": "1..3", "pipeline length": "1..4 ops", "fd step": "1e-5", "grad rtol": "1e-5 (1e-3 for variational-bound outputs)"}
 ASSUMPTIONS = [
-    "eager execution is the reference for jit / vmap; central differences (h=1e-5) are the reference for gradients",
+    "eager execution is the reference for jit / vmap; central differences (h=1e-5) are the reference for gradients, with their own truncation error (estimated from the step 2h) added to the tolerance",
     "SPD parameters enter pipelines through a factor G (Sigma = G G' + 0.5 I) so that perturbations stay in the domain",
     "non-smooth links are differentiated only where |h| stays away from 0 by construction (offset >= 0.05)",
 ]
@@ -377,6 +377,15 @@ def _run_p(case):
         ok, fd = lib(fails, tag + ".fd", lambda: (float(scal_fd(Pp)) - float(scal_fd(Pm))) / (2 * h))
         if not ok:
             return fails
+        # truncation error of the central difference (h^2 times the third derivative / 6), estimated from the step 2h: a polynomial
+        # integrand of degree four has third derivatives of order 1e2, which at h = 1e-5 is 1e-8 - visible when the true derivative
+        # is (nearly) zero
+        Pp2 = {k: P[k] + 2 * (Pp[k] - P[k]) for k in names}
+        Pm2 = {k: P[k] + 2 * (Pm[k] - P[k]) for k in names}
+        ok, fd2 = lib(fails, tag + ".fd", lambda: (float(scal_fd(Pp2)) - float(scal_fd(Pm2))) / (4 * h))
+        if not ok:
+            return fails
+        fd_err = abs(fd - fd2)
         f0 = float(np.sum(w * ref))
         rtol = 1e-3 if bound else 1e-5
         # variational bounds: the optimiser's variational parameters are held fixed (stop_gradient) after a fixed-point
@@ -386,7 +395,7 @@ def _run_p(case):
         if not np.isfinite(gd):
             fails.append(Failure(tag + ":grad_nonfinite", f"{tag}: gradient not finite"))
             break
-        if abs(gd - fd) > rtol * sc + 1e-9:
+        if abs(gd - fd) > rtol * sc + 1e-9 + fd_err:
             fails.append(Failure(tag + ":grad", f"{tag}: directional derivative {gd!r} vs central difference {fd!r} (rel {abs(gd-fd)/sc:.2e})"))
             break
     case["_resp"] = resp
